@@ -286,6 +286,24 @@ class Program:
         cache[fn.qualname] = sorted(set(out))
         return cache[fn.qualname]
 
+    REWRITE_THRESHOLD = 0.40
+
+    def survives(self, fn: FuncInfo) -> float:
+        """Fraction (multiset Jaccard of abstract statement tokens) of fn that is still the pinned function; 1.0 when
+        the pinned tree has no function of that name."""
+        shapes = self.__dict__.get("_shapes")
+        if shapes is None:
+            try:
+                import json as _json
+                shapes = _json.load(open(os.path.join(os.path.dirname(os.path.dirname(os.path.abspath(__file__))), "known_functions.json"))).get("shapes", {})
+            except Exception:
+                shapes = {}
+            self.__dict__["_shapes"] = shapes
+        ref = shapes.get(fn.qualname)
+        if ref is None or len(ref) < 15:
+            return 1.0     # unknown, or too small for the measure to mean anything (a one-line edit changes most of it)
+        return shape_similarity(ref, shape_tokens(fn.node))
+
     def all_functions(self) -> Iterator[FuncInfo]:
         return iter(self.functions.values())
 
@@ -322,3 +340,30 @@ class Program:
 
     def note(self, mi: ModuleInfo) -> None:
         self.consulted[mi.relpath] = mi.digest
+
+
+# ----------------------------------------------------------------------------- how much of a function is still the pinned one
+def shape_tokens(fn_node: ast.AST) -> List[str]:
+    """One token per statement / call of the function: node type plus the types of its direct children, names and
+    constants abstracted away.  Used only to measure how much of a function survives from the pinned tree."""
+    out = []
+    for n in ast.walk(fn_node):
+        if isinstance(n, (ast.stmt, ast.Call, ast.Compare, ast.BinOp)) and n is not fn_node:
+            kids = [type(c).__name__ for c in ast.iter_child_nodes(n) if not isinstance(c, (ast.expr_context, ast.operator, ast.cmpop, ast.boolop, ast.unaryop))]
+            extra = ""
+            if isinstance(n, ast.Call):
+                extra = n.func.attr if isinstance(n.func, ast.Attribute) else (n.func.id if isinstance(n.func, ast.Name) else "")
+            elif isinstance(n, (ast.Compare,)):
+                extra = ",".join(type(o).__name__ for o in n.ops)
+            elif isinstance(n, ast.BinOp):
+                extra = type(n.op).__name__
+            out.append(f"{type(n).__name__}:{extra}:{'.'.join(kids)}")
+    return out
+
+
+def shape_similarity(a: List[str], b: List[str]) -> float:
+    from collections import Counter
+    ca, cb = Counter(a), Counter(b)
+    inter = sum((ca & cb).values())
+    union = sum((ca | cb).values())
+    return 1.0 if union == 0 else inter / union
